@@ -84,6 +84,7 @@ ALPHABETS = {
     "small": [0, 1, 2, 3, 4, 5, 6, 7],
     "float": None,
     "extreme": [0, -1.5, 2.5, FMAX, -FMAX, 1e-300, 1.0],
+    "infinite": [0, 1.5, float("inf"), float("-inf"), FMAX, -FMAX, 3.0],
     "binary": [0.0, 1.0],
     "numpy": "numpy",
 }
@@ -109,7 +110,7 @@ def gen_case(rng, arm, tier, k=0):
         return gen_duo(rng)
     size = rng.randint(1, 12) if arm == "synth" else rng.randint(8, 64)
     policy = rng.choice(("min", "max"))
-    alpha = rng.choice(("tiny", "small", "float", "extreme", "binary", "tiny", "float", "numpy"))
+    alpha = rng.choice(("tiny", "small", "float", "extreme", "binary", "tiny", "float", "numpy", "infinite"))
     length = rng.randint(1, 80 if arm == "synth" else 200)
     w_put = rng.choice((1, 2, 4))
     w_updn = rng.choice((0, 1, 3))
